@@ -97,7 +97,8 @@ def gen_cells(ck):
                 # lbfgs (GP) at every fit, not only every 10th
                 "acq_optimizer_freq": rng.choice([1, 1, 10])}
         batches = [batch] if not vary else [rng.randint(1, 8) for _ in range(n_rounds)]
-        script = ac.gen_script(rng, n_rounds, 8, fail_p=rng.choice([0.0, 0.2, 0.5]), batches=batches)
+        script = ac.gen_script(rng, n_rounds, 8, fail_p=rng.choice([0.0, 0.2, 0.5]), batches=batches,
+                               again_p=rng.choice([0.0, 0.0, 0.2, 0.4]))
         if rng.random() < 0.5:
             for st in script:
                 st["tell"] = [True]  # results of a batch all come back before the next ask
@@ -123,8 +124,14 @@ def _direct_oracle(spec, rec):
         draws = [dr for r in rec["rounds"] for dr in r["askDraws"] + r["tellDraws"]]
         all_cover = bool(draws) and all(univ <= {_key(c) for c in dr} for dr in draws)
     prev_tell = []
+    last_lists = []
     for k, r in enumerate(rec["rounds"]):
         lists = [dr for dr in (prev_tell + r["askDraws"]) if dr]
+        if not lists:
+            # nothing drawn since the previous ask (asked again before a tell): the proposal
+            # still comes from the lists drawn before
+            lists = last_lists
+        last_lists = lists
         in_batch = set()
         for j, x in enumerate(r["X"]):
             kx = _key(x)
